@@ -724,6 +724,33 @@ def check_copy_loops(fx, rep):
                     size_l = inner[0]
                 else:
                     break
+            # the size the loop runs to is the size operand itself: a clamp (`size.min(LIMIT)`) in front of the loop leaves the
+            # words between LIMIT and size as they were, where the EVM overwrites them (with data or with zero padding). The
+            # configured single-operation limit is the documented bound of copies of unknown data; any other clamp is reported.
+            cur = next((x["local"] for x, _ in F.walk(it) if x.get("k") == "Path" and x.get("res") == "local"), None)
+            for _hop in range(5):
+                init = _binding_init(root, cur) if cur is not None else None
+                if init is None:
+                    break
+                i_ = F.strip(init)
+                if i_.get("k") == "MethodCall" and i_["method"] in ("min", "clamp") and i_["args"]:
+                    lim = T.short(T.term(i_["args"][-1], T.Env()))
+                    configured = "single_memory_operation_size_limit" in lim
+                    rep.oblige(
+                        configured,
+                        "R07.2",
+                        f"copy-clamp:{F.strip_generics(b['def'])}#{k_loop}",
+                        F.loc(i_["span"]),
+                        f"`{b['def']}` copies at most `{lim}` bytes whatever the size operand says: for a larger constant size the destination words beyond that bound keep their old contents, where a concrete EVM overwrites them (with the copied bytes or the zero padding)",
+                        sample={"rule": "R07.2", "fn": b["def"], "clamp": lim, "class": "configured single-operation limit" if configured else "other"},
+                    )
+                    cur = F.local_of(F.strip(i_["recv"]))
+                    continue
+                inner = [x["local"] for x, _ in F.walk(init) if x.get("k") == "Path" and x.get("res") == "local"]
+                if len(set(inner)) == 1:
+                    cur = inner[0]
+                else:
+                    break
             # the value added to the destination: KnownWord::from(X) / X.into() inside the body
             adds = [c for c, _ in F.calls(loop["body"]) if c.get("k") == "Call" and (F.callee_def(c) or "").split("::")[-1] == "from" and (c.get("ty") or "").endswith("KnownWord") and len(c["args"]) == 1]
             adds += [c for c, _ in F.calls(loop["body"]) if c.get("k") == "MethodCall" and c["method"] == "into" and (c.get("ty") or "").endswith("KnownWord")]
@@ -1082,6 +1109,16 @@ def check_key_agreement(fx, rep, cg):
             F.loc(adt["span"]),
             f"the writers and readers of `{adt_name}` do not normalise the key the same way before the lookup ({ {k.split('::')[-1]: sorted(v) for k, v in sorted(family.items())} }): a value written under one form of the key is not found under the other",
             sample={"rule": "R07.4", "store": adt_name, "key_normalisation": {k.split("::")[-1]: sorted(v) for k, v in sorted(family.items())}},
+        )
+        # ... and the normal form is the folded one: a key computed from constants (`2 + 3`) names the cell the literal `5` names
+        common = set.intersection(*[set(v) for v in family.values()]) if family else set()
+        rep.oblige(
+            "constant_fold" in common,
+            "R07.4",
+            f"key-folded:{adt_name}",
+            F.loc(adt["span"]),
+            f"the writers and readers of `{adt_name}` look the key up as it stands, without folding it first ({sorted(common)}): a value written under a computed constant key (`2 + 3`) is not found under the literal key (`5`) and the other way round, where a concrete EVM addresses one cell",
+            sample={"rule": "R07.4", "store": adt_name, "normalisation_common_to_all": sorted(common)},
         )
     rep.floor("R07.4", n_fam, 2, "keyed stores (storage, memory) with a writer and a reader on the execution path")
 
